@@ -22,7 +22,7 @@ def main(pid: str, path: str) -> int:
         return 1 if rep else 0
     if v.get('replay_cmd'):
         import subprocess
-        return subprocess.call(v['replay_cmd'], shell=True)
+        return subprocess.call(v['replay_cmd'], shell=True, env=xhair._env(), cwd=xhair.VERIF)
     print(json.dumps(v, indent=1)[:4000])
     print('no executable replay recorded for this entry')
     return 2
